@@ -15,7 +15,9 @@ TEXT = ("Decides the two clauses of reopen-equality that are visible in the shap
         "agreement): JSON keys written by Delta::to_json = keys read by the block loader; change-record arities "
         "written = arities accepted, everything else rejected; position p of a written record carries Change field f "
         "iff the loader fills field f from position p; the pack writer records (offset,len) of exactly the bytes it "
-        "appended; writer and reader derive the block's storage key from the same function. Does not decide state "
+        "appended; writer and reader derive the block's storage key from the same function. K5: in commit no call that can "
+        "stage objects (write effect on DataStorage.stage, e.g. the automatic array resolution) is reachable from the "
+        "pack write. Does not decide state "
         "equality after reopen for all contents (a round trip over runtime values).")
 TRUSTED = ["rustc nightly MIR", "serde_json::to_string emits RFC 8259 JSON (braces, quotes and backslashes unescaped only as structure / inside strings as written)"]
 
@@ -268,6 +270,31 @@ def run(facts, res):
                 if not ok:
                     res.violation("K4", "%s|staged-entry-skipped" % fn, "%s can skip the change record of a staged entry" % fn, cb.loc())
     res.floor("K4", "change-record push sites in commit and stage", n_k4, 2)
+
+    # ------------------------------------------------------------------ K5 everything staged is packed
+    res.rule("K5", "commit stages nothing after writing the pack (every staged object is in the pack the block references)")
+    from . import c09
+    from ..effects import effects_of
+    cm = facts.body("melda::Melda::commit")
+    if cm is not None:
+        cg = cg_of(facts)
+        eff = effects_of(facts)
+        ccfg = cfg_of(cm)
+        writers = c09.raw_writer_bodies(facts)
+        wsites = c09.sites_reaching_writer(facts, cm, writers)
+        psites = [s_ for s_ in wsites if not (len(s_.term.args) > 1 and contains_call(arg_term(cm, s_.term, 1, 30), "melda::DeltaId::key"))]
+        stagers = [s_ for s_ in cg.sites[cm.path] if s_ not in wsites and not s_.fanout and
+                   ("datastorage::DataStorage", "stage") in eff.site_effects(s_)]
+        res.instance("K5", "commit: pack write site(s) %s; other sites that can stage objects: %s" % (
+            [s_.loc() for s_ in psites], [(s_.name(), s_.loc()) for s_ in stagers]), cm.loc())
+        res.floor("K5", "pack write site in commit", len(psites), 1)
+        res.floor("K5", "staging call sites in commit (automatic array resolution)", len(stagers), 1)
+        for ps_ in psites:
+            for st_ in stagers:
+                if ccfg.reaches(ps_.block, st_.block):
+                    res.violation("K5", "commit|stages-after-pack:%s" % st_.name(),
+                                  "commit can call %s (which stages objects) after the pack has been written: the block would reference revisions whose "
+                                  "objects are in no pack, and a reopened replica holds the block back" % st_.name(), st_.loc())
 
     # ------------------------------------------------------------------ K2f storage key
     c = facts.body("melda::Melda::commit")
